@@ -164,10 +164,76 @@ def source_limits(ctx):
     return out
 
 
+def shard_merge_budget(ctx):
+    """the per-shard ordered merge runs before the coordinator applies OFFSET: it may skip nothing and must let
+    LIMIT + OFFSET rows through"""
+    b = Builder(ctx, "query-streaming-merger-{impl#0}-merge-{closure#0}.", "ShardFlowMerger::merge", {})
+    E, q = b.E, ctx.q
+    r = b.mk("B-5", "ShardFlowMerger::merge: the shard-level OrderedStreamMerger is started with offset 0 and with the shard's row "
+                    "budget StreamingContext::effective_limit - and that budget is LIMIT + OFFSET (StreamingContext::new) - never "
+                    "the plan's LIMIT alone, which would cut rows LIMIT..LIMIT+OFFSET of a shard before the coordinator skips OFFSET")
+    out = [b.results["B-5"]]
+    if not r:
+        return out
+    spawns = oblig.events(E, r"OrderedStreamMerger::spawn$")
+    if not oblig.need_anchor(r, spawns, "OrderedStreamMerger::spawn in ShardFlowMerger::merge"):
+        return out
+    r.nontrivial = True
+    for e in spawns:
+        if len(e.args) < 6:
+            r.status = "inconclusive"
+            r.notes.append("spawn call has an unexpected arity")
+            return out
+        off = E.to_term(e.args[4], "usize")
+        if off is None:
+            r.status = "inconclusive"
+            r.notes.append("offset argument not resolved")
+            return out
+        res, model = q.check(e.reach, off != 0, domain=E.domain)
+        r.queries += 1
+        src = E.trace(e.args[5], e.env, depth=8) | {sym.describe(e.args[5])}
+        plain = any(re.search(r"QueryPlan::limit", x) for x in src)
+        eff = any("effective_limit" in x for x in src)
+        if res == z3.sat or plain or not eff:
+            r.status = "violated"
+            r.witness = {"what": ("the shard-level ordered merge skips rows itself (offset argument can be non-zero)" if res == z3.sat else
+                                  f"the shard-level ordered merge is limited by {sorted(x for x in src if '::' in x)[:3]} instead of the shard budget "
+                                  "LIMIT + OFFSET: with ORDER BY ... LIMIT n OFFSET m each shard hands on only n rows, the coordinator skips m of them"),
+                         "span": f"{e.span[0]}:{e.span[1]}" if e.span else None, "call": "OrderedStreamMerger::spawn", "path": [], "model": {}}
+            return out
+    # the budget itself: effective_limit = limit.map(|l| l + offset.unwrap_or(0))
+    b2 = Builder(ctx, "streaming-context-{impl#0}-new-{closure#0}.", "StreamingContext::new", {})
+    E2 = b2.E
+    if E2 is None:
+        r.status = "inconclusive"
+        r.notes.append(b2.err)
+        return out
+    maps = [e for e in oblig.events(E2, r"Option::<usize>::map|Option::map") if e.args and "QueryPlan::limit" in sym.describe(e.args[0])]
+    if not oblig.need_anchor(r, maps, "plan.limit().map(..) in StreamingContext::new"):
+        return out
+    # the closure body adds the offset
+    adds = False
+    for f in ctx.find("streaming-context-{impl#0}-new-{closure#0}-{closure#"):
+        txt = open(f).read()
+        if re.search(r"QueryPlan::offset", txt) and re.search(r"AddWithOverflow|= Add\(", txt):
+            adds = True
+    stored = False
+    for (_n, reach, env) in E2.returns:
+        if "Option::map" in " ".join(E2.trace(env.get(0), env, depth=10)):
+            stored = True
+    if not adds or not stored:
+        r.status = "violated"
+        r.witness = {"what": "StreamingContext::new does not compute the shard budget as LIMIT + OFFSET "
+                             f"(closure adds the offset: {adds}; result stored in the context: {stored})",
+                     "span": "src/engine/query/streaming/context.rs", "call": "StreamingContext::new", "path": [], "model": {}}
+    return out
+
+
 def obligations(ctx):
     out = pick(writerspec.accept_row(ctx), [("B-1", "window"), ("B-1b", "dedup")])
     out += merger_window(ctx)
     out += source_limits(ctx)
+    out += shard_merge_budget(ctx)
     b = Builder(ctx, "handlers-query-handler-{impl#0}-handle-{closure#0}.", "QueryCommandHandler::handle", {})
     E, q = b.E, ctx.q
     r = b.mk("B-2", "QueryCommandHandler::handle: the execution pipeline is built only if the query does not combine an "
